@@ -555,6 +555,11 @@ func finishCheck(prop, tierName string, tier, seed int, jobs []*job, tmp string,
 	if fatal > 0 {
 		return 2
 	}
+	if witnessBad > 0 {
+		// the executor and the native run disagree on a reachability witness:
+		// nothing this run says is trusted (inconclusive, never "holds")
+		return 2
+	}
 	return 0
 }
 
